@@ -15,7 +15,10 @@ LEVEL = 'exploration'
 RULE = (
     'cases = one call of Q_elements_from_wavelength / Q_vec_from_Q_elements / hkl_vec_from_Q_vec / '
     'ub_matrix_from_u_and_b / hkl_elements_from_hkl_vec, or one family (rescale, rotate, scalar-Q agreement) '
-    'on generated beams (directions over the sphere incl. nearly parallel), wavelengths 0.01..100 angstrom, '
+    'on generated beams in generic orientation (scattering angle classes: generic, log-uniform 1e-9..1e-1 from 0 '
+    'and from pi, exactly 0 and pi; one incident beam for all pixels or one per pixel), wavelengths 0.01..100 '
+    'angstrom as float64 / float32 / integer, dense, 0-d or events; every shard runs the forced combinations '
+    'float32 wavelength x (small angle, back-scattering) x layout; '
     'R and U Haar-random or axis permutations (quaternion or 3x3 form), B upper triangular with condition '
     'number up to 1e6; distinct = (function, units, dtype, matrix representation, cond decade, shape class, '
     'angle class) signatures'
@@ -91,25 +94,40 @@ class Monitors:
             want = k[..., None] * (ei - ef)
             got = np.stack([ops.result_values(res[c]).astype(si.LD) for c in ('Qx', 'Qy', 'Qz')], axis=-1)
             f32 = ops.elem_dtype(a['wavelength']) == sc.DType.float32
-            eps = si.EPS32 if f32 else EPS
-            tol = 64 * eps * np.abs(k)
+            # forward bound of the definition at the inputs AS GIVEN (DESIGN section 3: condition number x 64 eps
+            # per input).  The beams are float64 vectors: normalising them in double precision leaves an ABSOLUTE
+            # error of a few eps64 in e_i - e_f (the difference cancels at small angles), i.e. 64 eps64 x 2pi/lambda.
+            # The wavelength enters as the factor 1/lambda (condition number 1): a RELATIVE term 64 eps(lambda) |Q_vec|,
+            # eps(lambda) = eps32 for a single-precision wavelength.  For double-precision (and integer) wavelengths
+            # the relative term is at most twice the absolute one and the absolute bound alone is kept (it is the
+            # tighter of the two and is what the unchanged definition meets with a margin of ~15).
+            qn = geom.norm(want)
+            tol = 64 * EPS * np.abs(k) + (64 * si.EPS32 * qn if f32 else 0)
             err = np.max(np.abs(got - want), axis=-1)
-            frac = err / tol
+            with np.errstate(divide='ignore', invalid='ignore'):
+                frac = np.where(tol > 0, err / tol, np.where(err > 0, np.inf, 0))
+            frac = np.where(np.isfinite(got).all(axis=-1) | ~np.isfinite(want).all(axis=-1), frac, np.inf)
             worst = float(np.max(frac)) if frac.size else 0.0
             unit_ok = all(ops.elem_unit(res[c]) == sc.Unit('one') / lam_unit for c in ('Qx', 'Qy', 'Qz'))
         except Exception:  # noqa: BLE001
             ctx.oracle_error(name)
             return
         ctx.event(name)
-        ctx.dev('Q_elements: |err| / (eps 2pi/lambda)' + ('.f32' if f32 else ''), worst * 64)
+        if f32:
+            ctx.event(name + '.f32')
+            ctx.dev('Q_elements.f32: |err| / (eps32 |Q_vec| + eps64 2pi/lambda)', worst * 64)
+        else:
+            ctx.dev('Q_elements: |err| / (eps 2pi/lambda)', worst * 64)
         if not unit_ok:
             ctx.violation('unit', f'{name}: unit {ops.elem_unit(qx)} expected 1/{lam_unit}', self._case(name, ev))
         elif worst > 1:
             i = int(np.argmax(frac))
-            ctx.violation('q_vector', f'{name}: differs from (2pi/lambda)(e_i - e_f) by {worst * 64:.3g} eps x '
-                          '2pi/lambda (bound 64)',
+            bound = '64 (eps32 |Q_vec| + eps64 2pi/lambda)' if f32 else '64 eps 2pi/lambda'
+            ctx.violation('q_vector', f'{name}: differs from (2pi/lambda)(e_i - e_f) by {worst:.3g} x the bound {bound}; '
+                          f'|err| = {float(err.reshape(-1)[i]):.3g}, |Q_vec| = {float(qn.reshape(-1)[i]):.3g}',
                           dict(self._case(name, ev), got=[repr(x) for x in got.reshape(-1, 3)[i]],
-                               expected=[repr(x) for x in want.reshape(-1, 3)[i]]))
+                               expected=[repr(x) for x in want.reshape(-1, 3)[i]]),
+                          wavelength_dtype='float32' if f32 else 'float64')
 
     def q_vec(self, ev):
         name = 'Q_vec_from_Q_elements'
@@ -208,17 +226,41 @@ class Monitors:
 
 
 # ----------------------------------------------------------- generators ---
-def gen_beams(rng, n, ctx):
+ANGLE_CLASSES = {
+    # name: (forced class, log10 lo, log10 hi of the log-uniform distance d, angle = pi - d instead of d)
+    'parallel': ('nearly parallel beams', -9, -6, False),
+    'antiparallel': ('nearly antiparallel beams', -9, -6, True),
+    'small': ('small-angle beams (two_theta 1e-6..1e-1)', -6, -1, False),
+    'back': ('back-scattering beams (pi - two_theta 1e-6..1e-1)', -6, -1, True),
+    'sans': ('SANS band (two_theta 1e-4..1e-2)', -4, -2, False),
+    'back_sans': ('back-scattering band (pi - two_theta 1e-4..1e-2)', -4, -2, True),
+}
+RANDOM_ANGLE_CLASSES = ['parallel', 'antiparallel', 'small', 'back', 'generic', 'generic', 'generic']
+
+
+def gen_beams(rng, n, ctx, force=None, single_incident=False):
+    """Beams in generic orientation (directions Haar-random, lengths 0.01..1000); the scattering angle of each
+    pixel from a class: generic (1e-3..pi), log-uniform near 0 or near pi.  force = one class for all pixels,
+    'zero' = scattered along the incident beam exactly (a positive power of two times it), 'pi' = exactly opposite.
+    Returns float64 (n, 3) arrays."""
     a = geom.random_unit(rng, n) * (10.0 ** rng.uniform(-2, 3, size=(n, 1)))
-    cls = rng.integers(0, 5, size=n)
-    ang = np.where(cls == 0, 10.0 ** rng.uniform(-9, -6, size=n), rng.uniform(1e-3, np.pi, size=n))
-    ang = np.where(cls == 1, np.pi - 10.0 ** rng.uniform(-9, -6, size=n), ang)
+    if single_incident:  # one incident beam for all pixels (row 0 is the operand): the angles are measured from it
+        a = np.tile(a[:1], (n, 1))
+    if force in ('zero', 'pi'):
+        b = a * (2.0 ** rng.integers(-6, 7, size=(n, 1))) * (1.0 if force == 'zero' else -1.0)
+        ctx.hit('scattered beam exactly along the incident beam (Q = 0)' if force == 'zero'
+                else 'scattered beam exactly opposite to the incident beam')
+        return a, b
+    names = [force] * n if force else [RANDOM_ANGLE_CLASSES[j] for j in rng.integers(0, len(RANDOM_ANGLE_CLASSES), size=n)]
+    ang = rng.uniform(1e-3, np.pi, size=n)
+    for nm, (label, lo, hi, from_pi) in ANGLE_CLASSES.items():  # fixed order: the draws must not depend on hashing
+        if nm not in names:
+            continue
+        d = 10.0 ** rng.uniform(lo, hi, size=n)
+        ang = np.where(np.array(names) == nm, np.pi - d if from_pi else d, ang)
+        ctx.hit(label)
     perp = geom.perpendicular_unit(rng, a)
     b = (geom.rotate_towards(a, perp, ang) * (10.0 ** rng.uniform(-2, 3, size=(n, 1)))).astype(np.float64)
-    if np.any(cls == 0):
-        ctx.hit('nearly parallel beams')
-    if np.any(cls == 1):
-        ctx.hit('nearly antiparallel beams')
     return a, b
 
 
@@ -314,9 +356,27 @@ def gen_b(rng, n, ctx):
     return var, unit, dec
 
 
+LAYOUTS = ['per_pixel', '2d', 'scalar_lambda', 'binned']
+# forced cases of every shard (index i of the Q family): the classes a random draw of (wavelength dtype x angle class x
+# layout) may or may not produce.  (wavelength dtype, angle class, layout or None = random)
+FORCED_Q = {
+    3: ('float32', 'sans', 'per_pixel'), 4: ('float32', 'sans', '2d'), 5: ('float32', 'sans', 'scalar_lambda'),
+    6: ('float32', 'sans', 'binned'),
+    7: ('float32', 'back_sans', '2d'), 8: ('float32', 'back_sans', 'binned'),
+    9: ('float32', 'parallel', 'per_pixel'), 10: ('float32', 'antiparallel', 'per_pixel'),
+    11: ('float32', 'small', '2d'), 12: ('float32', 'back', '2d'),
+    13: ('float64', 'sans', '2d'), 14: ('float64', 'back_sans', 'per_pixel'),
+    15: ('float64', 'zero', '2d'), 16: ('float32', 'zero', 'per_pixel'), 17: ('float64', 'pi', 'per_pixel'),
+    18: ('float32', 'pi', '2d'),
+    19: ('int64', None, 'per_pixel'), 20: ('int32', 'sans', '2d'), 21: ('int64', None, 'binned'),
+}
+
+
 def q_family(rng, ctx, K, KB, mon, i=-1):
     n = int(rng.integers(1, 40))
-    a, b = gen_beams(rng, n, ctx)
+    wdt, angle_class, layout = FORCED_Q.get(i, (None, None, None))
+    single = n == 1 or rng.random() < 0.5  # incident beam given once (0-d) or per pixel
+    a, b = gen_beams(rng, n, ctx, force=angle_class, single_incident=single)
     u1, u2 = LEN_UNITS[rng.integers(0, 5)], LEN_UNITS[rng.integers(0, 5)]
     if 0 <= i < 3:  # dimensionless beams in every shard: incident, scattered, both
         u1, u2 = [('one', u2 if u2 != 'one' else 'm'), (u1 if u1 != 'one' else 'm', 'one'), ('one', 'one')][i]
@@ -324,49 +384,79 @@ def q_family(rng, ctx, K, KB, mon, i=-1):
         if u == 'one':
             ctx.hit(f'dimensionless {which} beam')
     uw = WAV_UNITS[rng.integers(0, 3)]
-    fw = float(si.lookup(sc.Unit(uw))[0])
-    f32 = rng.random() < 0.2
-    layout = ['per_pixel', '2d', 'scalar_lambda', 'binned'][rng.integers(0, 4)]
+    r_dt, r_layout = rng.random(), LAYOUTS[rng.integers(0, 4)]
+    dt = wdt or ('float32' if r_dt < 0.2 else 'float64')
+    layout = layout or r_layout
+    f32 = dt == 'float32'
     lam_si = 10.0 ** rng.uniform(-12, -8, size=(n, 5))
-    dt = 'float32' if f32 else 'float64'
+    if dt.startswith('int'):  # whole numbers of angstrom (1..100) or nm (1..10): the integer part of the quantifier's range
+        uw = WAV_UNITS[rng.integers(0, 2)]
+        lam_si = rng.integers(1, 101 if uw == 'angstrom' else 11, size=(n, 5)) * (1e-10 if uw == 'angstrom' else 1e-9)
+        ctx.hit('integer wavelength')
+    fw = float(si.lookup(sc.Unit(uw))[0])
+    lam_v = np.rint(lam_si / fw) if dt.startswith('int') else lam_si / fw
     if layout == 'per_pixel':
-        lam = sc.array(dims=['pixel'], values=lam_si[:, 0] / fw, unit=uw, dtype=dt)
+        lam = sc.array(dims=['pixel'], values=lam_v[:, 0], unit=uw, dtype=dt)
     elif layout == '2d':
-        lam = sc.array(dims=['pixel', 'wavelength'], values=lam_si / fw, unit=uw, dtype=dt)
+        lam = sc.array(dims=['pixel', 'wavelength'], values=lam_v, unit=uw, dtype=dt)
     elif layout == 'scalar_lambda':
-        lam = sc.scalar(lam_si[0, 0] / fw, unit=uw, dtype=dt)
+        lam = sc.scalar(lam_v[0, 0], unit=uw, dtype=dt)
     else:
         sizes = rng.integers(0, 6, size=n)
-        lam = ops.make_binned(np.resize(lam_si / fw, int(sizes.sum())).astype(dt), sizes, ['pixel'], (n,), uw, dtype=dt)
-    mon.meta = {'family': 'Q', 'layout': layout, 'units': (u1, u2, uw), 'f32': f32}
-    vb1 = vecs(a[0], u1) if rng.random() < 0.5 else vecs(a, u1) if n > 1 else vecs(a[0], u1)
+        if i in FORCED_Q and sizes.sum() == 0:
+            sizes[0] = 3  # a forced class must reach the kernel with at least one event
+        lam = ops.make_binned(np.resize(lam_v, int(sizes.sum())).astype(dt), sizes, ['pixel'], (n,), uw, dtype=dt)
+    if f32 and angle_class in ('sans', 'parallel', 'small'):
+        ctx.hit('float32 wavelength, nearly parallel beams')
+    if f32 and angle_class in ('back_sans', 'antiparallel', 'back'):
+        ctx.hit('float32 wavelength, back-scattering')
+    if f32 and layout == 'binned' and angle_class == 'sans':
+        ctx.hit('float32 event wavelengths, nearly parallel beams')
+    mon.meta = {'family': 'Q', 'layout': layout, 'units': (u1, u2, uw), 'f32': f32, 'wavelength_dtype': dt,
+                'angle_class': angle_class or 'mixed'}
+    vb1 = vecs(a[0], u1) if single else vecs(a, u1)
     vb2 = vecs(b, u2) if n > 1 else sc.vectors(dims=['pixel'], values=b, unit=u2)
     base = K.Q_elements_from_wavelength(wavelength=lam, incident_beam=vb1, scattered_beam=vb2)
     qv = K.Q_vec_from_Q_elements(**base)
-    if layout != 'binned' and not f32:
+    if layout != 'binned':
         A = a[:1] if vb1.ndim == 0 else a
+        kk = np.abs(2 * np.pi / np.asarray(ops.align(lam, qv), dtype=np.float64))
+        # bounds of the families: the forward bound of the definition at the inputs as given, once per evaluation
+        # that enters the comparison.  Absolute term eps64 x 2pi/lambda (double-precision beams, cancelling
+        # difference); for a single-precision wavelength also the relative term eps32 |Q_vec| (the result, the
+        # scalar Q and anything derived from lambda may be rounded to single precision).
+        unit_err = EPS * kk + (si.EPS32 * np.linalg.norm(qv.values, axis=-1) if f32 else 0)
+        sfx = '.f32' if f32 else ''
+        per = ' (eps32 |Q| + eps64 2pi/lambda)' if f32 else ' lambda/2pi (eps)'
+
+        def judge(event, devname, d, bound, kind, text):
+            with np.errstate(divide='ignore', invalid='ignore'):
+                r = np.where(unit_err > 0, d / unit_err, np.where(d > 0, np.inf, 0))
+            r = np.where(np.isnan(r), np.inf, r)
+            w = float(np.max(r))
+            ctx.event(event)
+            if f32:
+                ctx.event(event + '.f32')
+            ctx.dev(devname + sfx, w)
+            if w > bound:
+                ctx.violation(kind, text.format(w=f'{w:.3g}', unit='(eps32 |Q_vec| + eps64 2pi/lambda)' if f32
+                                                else 'eps x 2pi/lambda', bound=bound), dict(mon.meta))
+
         # independence of beam lengths
         k1, k2 = 2.0 ** int(rng.integers(-10, 11)), 2.0 ** int(rng.integers(-10, 11))
         sc2 = K.Q_vec_from_Q_elements(**K.Q_elements_from_wavelength(
             wavelength=lam, incident_beam=vecs(A[0] * k1, u1) if vb1.ndim == 0 else vecs(A * k1, u1),
             scattered_beam=sc.vectors(dims=['pixel'], values=b * k2, unit=u2)))
-        kk = 2 * np.pi / np.asarray(sc.broadcast(lam, dims=qv.dims, shape=qv.shape).values if lam.dims != qv.dims else lam.values)
-        d = np.max(np.abs(sc2.values - qv.values), axis=-1) / np.abs(kk)
-        ctx.event('family.rescale')
-        ctx.dev('family.rescale 2^k: |dQ| lambda/2pi (eps)', float(np.max(d)) / EPS)
-        if np.max(d) > 128 * EPS:
-            ctx.violation('depends_on_beam_length', f'Q_vec changes by {float(np.max(d)) / EPS:.3g} eps x 2pi/lambda '
-                          'when the beams are rescaled by powers of two', dict(mon.meta))
+        judge('family.rescale', 'family.rescale 2^k: |dQ|' + per, np.max(np.abs(sc2.values - qv.values), axis=-1), 128,
+              'depends_on_beam_length', 'Q_vec changes by {w} x {unit} when the beams are rescaled by powers of two '
+              '(bound {bound})')
         # norm equals scalar Q of the same beams (observed two_theta + Q_from_wavelength)
         tt = KB.two_theta(incident_beam=vb1, scattered_beam=vb2)
         Qs = K.Q_from_wavelength(wavelength=lam, two_theta=tt)
         Qs = sc.broadcast(Qs, dims=qv.dims, shape=qv.shape) if Qs.dims != qv.dims else Qs
-        d = np.abs(np.linalg.norm(qv.values, axis=-1) - Qs.values) / np.abs(kk)
-        ctx.event('family.norm_vs_scalar_Q')
-        ctx.dev('family.|Q_vec| vs scalar Q: diff lambda/2pi (eps)', float(np.max(d)) / EPS)
-        if np.max(d) > 128 * EPS:
-            ctx.violation('norm_vs_scalar_q', f'|Q_vec| differs from the scalar Q of the same beams by '
-                          f'{float(np.max(d)) / EPS:.3g} eps x 2pi/lambda', dict(mon.meta))
+        judge('family.norm_vs_scalar_Q', 'family.|Q_vec| vs scalar Q: diff' + per,
+              np.abs(np.linalg.norm(qv.values, axis=-1) - np.asarray(Qs.values, dtype=np.float64)), 128,
+              'norm_vs_scalar_q', '|Q_vec| differs from the scalar Q of the same beams by {w} x {unit} (bound {bound})')
         # covariance: rotate both beams
         Rm = geom.random_rotation(rng)
         ra = (geom.v3(A) @ Rm.T).astype(np.float64)
@@ -375,13 +465,10 @@ def q_family(rng, ctx, K, KB, mon, i=-1):
             wavelength=lam, incident_beam=vecs(ra[0], u1) if vb1.ndim == 0 else vecs(ra, u1),
             scattered_beam=sc.vectors(dims=['pixel'], values=rb, unit=u2)))
         want = (geom.v3(qv.values) @ Rm.T)
-        d = np.max(np.abs(rot.values.astype(si.LD) - want), axis=-1) / np.abs(kk)
-        ctx.event('family.rotation')
-        ctx.dev('family.rotation covariance: |Q(Rb) - R Q(b)| lambda/2pi (eps)', float(np.max(d)) / EPS)
-        if np.max(d) > 256 * EPS:
-            ctx.violation('not_covariant', f'Q_vec of rotated beams differs from the rotated Q_vec by '
-                          f'{float(np.max(d)) / EPS:.3g} eps x 2pi/lambda', dict(mon.meta))
-    return ('Q', layout, u1, u2, uw, dt, vb1.ndim)
+        judge('family.rotation', 'family.rotation covariance: |Q(Rb) - R Q(b)|' + per,
+              np.max(np.abs(rot.values.astype(si.LD) - want), axis=-1).astype(np.float64), 256,
+              'not_covariant', 'Q_vec of rotated beams differs from the rotated Q_vec by {w} x {unit} (bound {bound})')
+    return ('Q', layout, u1, u2, uw, dt, vb1.ndim, angle_class or 'mixed')
 
 
 def reassemble_family(rng, ctx, K, mon):
@@ -423,10 +510,20 @@ def plan(tier, seed):
 def requirements(tier):
     return {'events': {'Q_elements_from_wavelength': 100, 'Q_vec_from_Q_elements': 100, 'hkl_vec_from_Q_vec': 100,
                        'ub_matrix_from_u_and_b': 100, 'hkl_elements_from_hkl_vec': 100, 'family.rotation': 30,
-                       'family.norm_vs_scalar_Q': 30, 'family.rescale': 30},
+                       'family.norm_vs_scalar_Q': 30, 'family.rescale': 30,
+                       'Q_elements_from_wavelength.f32': 100, 'family.rotation.f32': 30,
+                       'family.norm_vs_scalar_Q.f32': 30, 'family.rescale.f32': 30},
             'forced': ['nearly parallel beams', 'nearly antiparallel beams', 'axis permutation rotation',
                        'cond(B) >= 1e5', 'component with transposed dims',
-                       'dimensionless incident beam', 'dimensionless scattered beam']}
+                       'dimensionless incident beam', 'dimensionless scattered beam',
+                       'float32 wavelength, nearly parallel beams', 'float32 wavelength, back-scattering',
+                       'float32 event wavelengths, nearly parallel beams',
+                       'convert: float32 wavelength coordinate, nearly parallel beams',
+                       'convert: float32 wavelength coordinate, back-scattering',
+                       'integer wavelength',
+                       'scattered beam exactly along the incident beam (Q = 0)',
+                       'scattered beam exactly opposite to the incident beam']
+            + [v[0] for v in ANGLE_CLASSES.values() if v[0] not in ('nearly parallel beams', 'nearly antiparallel beams')]}
 
 
 def run(shard, ctx):
@@ -467,19 +564,27 @@ def run(shard, ctx):
                 ctx.sample({'signature': sig, **mon.meta})
         # in situ: through the shipped graph
         import scippneutron as scn
-        for _ in range(max(2, shard['q'] // 10)):
+        for j in range(max(2, shard['q'] // 10)):
             n = int(rng.integers(2, 10))
-            a, b = gen_beams(rng, n, ctx)
+            # every other data set: single-precision wavelength coordinate on a small-angle / back-scattering
+            # instrument in generic orientation (the kernels stay monitored underneath)
+            wdt = 'float32' if j % 2 else 'float64'
+            force = [None, 'sans', None, 'back_sans'][j % 4]
+            a, b = gen_beams(rng, n, ctx, force=force, single_incident=True)
+            if wdt == 'float32':
+                ctx.hit('convert: float32 wavelength coordinate, ' + ('nearly parallel beams' if force == 'sans'
+                                                                        else 'back-scattering'))
             da = sc.DataArray(
                 sc.ones(dims=['pixel', 'wavelength'], shape=[n, 3]),
-                coords={'wavelength': sc.array(dims=['wavelength'], values=rng.uniform(0.5, 10, size=3), unit='angstrom'),
+                coords={'wavelength': sc.array(dims=['wavelength'], values=rng.uniform(0.5, 10, size=3), unit='angstrom',
+                                               dtype=wdt),
                         'incident_beam': vecs(a[0], 'm'), 'scattered_beam': vecs(b, 'm'),
                         'sample_rotation': sc.spatial.rotation(value=matrix_to_quat(geom.random_rotation(rng).astype(float))),
                         'ub_matrix': sc.spatial.linear_transform(value=np.triu(rng.uniform(0.5, 2, size=(3, 3))), unit='1/angstrom')})
-            mon.meta = {'family': 'convert'}
+            mon.meta = {'family': 'convert', 'wavelength_dtype': wdt, 'angle_class': force or 'mixed'}
             try:
                 scn.convert(da, 'wavelength', 'hkl_vec', scatter=True)
-                ctx.case(('convert', 'hkl_vec', n))
+                ctx.case(('convert', 'hkl_vec', n, wdt, force or 'mixed'))
                 ctx.count('convert_calls')
             except Exception as e:  # noqa: BLE001
                 ctx.violation('raised_outer', f'convert to hkl_vec: {type(e).__name__}: {e}', dict(mon.meta))
@@ -492,7 +597,8 @@ def run(shard, ctx):
             da_tof.coords['tof'] = sc.array(dims=['tof'], values=rng.uniform(500, 50000, size=3), unit='us')
             for start, d0 in (('wavelength', da), ('tof', da_tof)):
                 for target, fac in (('Q_vec', GT.elastic_Q_vec), ('hkl_vec', GT.elastic_hkl), ('h', GT.elastic_hkl)):
-                    mon.meta = {'family': 'graph_factory', 'factory': fac.__name__, 'start': start, 'target': target}
+                    mon.meta = {'family': 'graph_factory', 'factory': fac.__name__, 'start': start, 'target': target,
+                                'wavelength_dtype': wdt, 'angle_class': force or 'mixed'}
                     try:
                         r = d0.transform_coords(target, graph=fac(start)).coords[target]
                         w = scn.convert(d0, start, target, scatter=True).coords[target]
@@ -501,7 +607,7 @@ def run(shard, ctx):
                                       dict(mon.meta))
                         continue
                     ctx.event('graph_factory')
-                    ctx.case(('graph_factory', fac.__name__, start, target, n))
+                    ctx.case(('graph_factory', fac.__name__, start, target, n, wdt))
                     if r.unit != w.unit or r.dims != w.dims or not np.array_equal(
                             np.asarray(r.values), np.asarray(w.values), equal_nan=True):
                         ctx.violation('graph_factory', f'graph.tof.{fac.__name__}({start!r}) gives a different {target} '
@@ -511,8 +617,9 @@ def run(shard, ctx):
 TECHNIQUE = ('runtime monitors (sys.monitoring) on the Q-vector / hkl kernels; long-double defining algebra '
              '(norm, rotation covariance, residual of 2 pi R UB hkl = Q with SVD conditioning)')
 LEVEL_TEXT = ('exploration: every observed return of the Q-vector/hkl kernels (direct and via convert) is checked '
-              'against the defining algebra in long double: Q_vec = (2pi/lambda)(e_i - e_f) at 64 eps 2pi/lambda '
-              'absolute, |Q_vec| = scalar Q, independence of beam lengths, covariance under SO(3), residual of '
+              'against the defining algebra in long double: Q_vec = (2pi/lambda)(e_i - e_f) at 64 eps64 2pi/lambda '
+              'absolute (double-precision beams) plus 64 eps32 |Q_vec| relative for single-precision wavelengths, '
+              '|Q_vec| = scalar Q, independence of beam lengths, covariance under SO(3) (same two-term bounds), residual of '
               '2 pi R UB hkl = Q at 64 eps cond |Q|, UB = U B, lossless split/reassemble. Sampled inputs, not a proof.')
 LEVEL_NOTE = 'trusted: numpy long double, float64 SVD for condition numbers, scipp spatial containers'
 DESIGN_REF = 'DESIGN.md section 4, C08'
